@@ -360,8 +360,10 @@ func sacramento(rainfall, pet data.ND1Float64,
 						//            if( percfw > tiny(percfw) ) then
 						ratlp := 1. - alzfpc/alzfpm
 						ratls := 1. - alzfsc/alzfsm
-						percs := math.Min(alzfsm-alzfsc,
-							percfw*(1.-hpl*(ratlp+ratlp)/(ratlp+ratls)))
+						// Fraction going to the primary store, at most all of it (FRACP in the
+						// NWS code); without the limit the supplemental store is drawn below zero
+						fracp := math.Min(1., hpl*(ratlp+ratlp)/(ratlp+ratls))
+						percs := math.Min(alzfsm-alzfsc, percfw*(1.-fracp))
 						alzfsc = alzfsc + percs
 						//             Check for spill from supplemental to primary
 						if alzfsc > alzfsm {
